@@ -331,6 +331,10 @@ func genUpdateCases(r *rand.Rand, tier string, prop string) []Case {
 		}
 		tg := pick(r, rf.targets)
 		newRe := pick(r, []string{"new", `a\"b`, `x\"@rx y`, `$1${2}`, `(?i)a|b`, `[\s\x0b]`, "", `a b" \x`, `\x5c`, `^(?:sel)ect\b`, " lead", "trail ", "  two", "\tTab", " ", `\$_(?:GET|POST)\[`, `[0-9]+\$$`, "old", "ld", "d"})
+		if i%40 == 13 {
+			// a regex longer than any reader's default buffer (64 KiB): what update can write, compare can read
+			newRe = strings.Repeat("ab|cd", 14000+r.Intn(3000)) + "z"
+		}
 		if i%9 == 4 {
 			// the regex mentions an id (its own rule's or another one's): text inside an operand is not an id (D27)
 			other := pick(r, rf.targets)
